@@ -2,6 +2,7 @@
 """Regenerate the seeded-change table of DESIGN.md section 13 from seeded/*/meta.json.
 
 usage: tools/seedtable.py            print the table
+       tools/seedtable.py --update-design   replace the table between the seedtable markers of DESIGN.md
        tools/seedtable.py --stamp F  record first-run results from a file with lines "<seed> caught|missed"
 """
 import json
@@ -18,6 +19,15 @@ def clip(s, n=140):
 
 
 def main():
+    if len(sys.argv) == 2 and sys.argv[1] == "--update-design":
+        import subprocess
+        table = subprocess.run([sys.executable, os.path.abspath(__file__)], capture_output=True, text=True).stdout
+        p = os.path.join(ROOT, "..", "DESIGN.md")
+        s = open(p).read()
+        a, b = "<!-- seedtable:begin (regenerate with tools/seedtable.py) -->\n", "<!-- seedtable:end -->"
+        i, j = s.index(a) + len(a), s.index(b)
+        open(p, "w").write(s[:i] + table + s[j:])
+        return
     if len(sys.argv) == 3 and sys.argv[1] == "--stamp":
         for ln in open(sys.argv[2]):
             seed, res = ln.split()[:2]
